@@ -359,9 +359,11 @@ class E9Project(Engine):
     assumptions = ["ports and library names are printable without leading/trailing blanks or newlines (the INI format cannot carry those)"]
     rule = (
         "run 0 sweeps validate_platform_board over (registry + near-miss names)^2 exhaustively (accept iff board in "
-        "SUPPORTED_PLATFORMS[platform]; every board in exactly one platform); every other run writes one project into a "
-        "fresh sandbox directory (seeded port, library list with duplicates/empties, source text incl. non-ASCII) and "
-        "reads it back; distinct = digest of (ini, main.cpp)"
+        "SUPPORTED_PLATFORMS[platform]; every board in exactly one platform); every other run is a history of 1-4 write_project calls "
+        "into one sandbox project directory (fresh, or holding a stale main.cpp / platformio.ini of an earlier session): "
+        "seeded port, library list with duplicates/empties, source text incl. non-ASCII; a later call re-uses parts of "
+        "the earlier one and a near copy of its source (same length, prefix, extension, identical); after every call "
+        "the directory is read back; distinct = digest of (ini, main.cpp)"
     )
 
     def generate(self, rng, tier: str, avoid) -> dict:
@@ -369,17 +371,48 @@ class E9Project(Engine):
 
         if getattr(rng, "_dst_index", 1) == 0:
             return {"mode": "sweep"}
-        platform = rng.choice(sorted(pio.SUPPORTED_PLATFORMS))
-        board = rng.choice(sorted(pio.SUPPORTED_PLATFORMS[platform]))
         alphabet = "abcXYZ019 /\\:;.,-_=+*%#@!~()[]{}<>|&^$'\"`?"
-        port = rng.choice(_PORTS) if rng.random() < 0.4 else "".join(rng.choice(alphabet) for _ in range(rng.randint(1, 24))).strip() or "COM1"
         pool = ["Servo", "LiquidCrystal", "LiquidCrystal_I2C", "", "Adafruit NeoPixel", "arduino-libraries/Servo@^1.2.1",
                 "https://github.com/x/y.git#v1", "Wire", "a=b", "100%", "[bracket]"]
-        libs = [rng.choice(pool) for _ in range(rng.choice([0, 0, 1, 2, 3, 5, 8]))]
-        lib_mode = rng.choice(["list", "list", "none", "tuple", "generator"])
-        chunks = ["void setup() {}\n", "void loop() {}\n", "// ünïcödé ✓ 漢字\n", "\t\tint x = 1;\r\n", "#include <Arduino.h>\n", "String s = \"%d {} [x]\";\n", "\n\n", "no trailing newline"]
-        source = "".join(rng.choice(chunks) for _ in range(rng.randint(0, 6)))
-        return {"mode": "write", "platform": platform, "board": board, "port": port, "libs": libs, "lib_mode": lib_mode, "source": source}
+        chunks = ["void setup() {}\n", "void loop() {}\n", "// ünïcödé ✓ 漢字\n", "\t\tint x = 1;\r\n", "#include <Arduino.h>\n", "String s = \"%d {} [x]\";\n", "\n\n", "no trailing newline",
+                  "const int PIN = 12;\n", "delay(500);\n"]
+
+        def step(prev=None) -> dict:
+            platform = rng.choice(sorted(pio.SUPPORTED_PLATFORMS))
+            board = rng.choice(sorted(pio.SUPPORTED_PLATFORMS[platform]))
+            port = rng.choice(_PORTS) if rng.random() < 0.4 else "".join(rng.choice(alphabet) for _ in range(rng.randint(1, 24))).strip() or "COM1"
+            libs = [rng.choice(pool) for _ in range(rng.choice([0, 0, 1, 2, 3, 5, 8]))]
+            lib_mode = rng.choice(["list", "list", "none", "tuple", "generator"])
+            source = "".join(rng.choice(chunks) for _ in range(rng.randint(0, 6)))
+            if prev is not None:
+                # the project directory is reused: keep parts of the previous call, and make the new source a
+                # near copy of the old one (same length, a prefix, an extension) as a rebuild after an edit would
+                how = rng.choice(["same_len", "same_len", "prefix", "extend", "fresh", "identical"])
+                old = prev["source"]
+                if how == "same_len" and old:
+                    idx = [i for i, c in enumerate(old) if ord(c) < 128 and c not in "\r\n"]
+                    if idx:
+                        i = rng.choice(idx)
+                        source = old[:i] + rng.choice([c for c in "0123456789abcXYZ;" if c != old[i]]) + old[i + 1:]
+                elif how == "prefix":
+                    source = old[: rng.randint(0, len(old))]
+                elif how == "extend":
+                    source = old + rng.choice(chunks)
+                elif how == "identical":
+                    source = old
+                if rng.random() < 0.5:
+                    platform, board = prev["platform"], prev["board"]
+                if rng.random() < 0.5:
+                    port = prev["port"]
+                if rng.random() < 0.3:
+                    libs, lib_mode = list(prev["libs"]), prev["lib_mode"] if prev["lib_mode"] != "generator" else "list"
+            return {"platform": platform, "board": board, "port": port, "libs": libs, "lib_mode": lib_mode, "source": source}
+
+        steps = [step()]
+        for _ in range(rng.choice([0, 0, 1, 2, 3])):
+            steps.append(step(steps[-1]))
+        stale = rng.choice([None, None, None, "main", "ini", "both"])
+        return {"mode": "write", "steps": steps, "stale": stale}
 
     def execute(self, case: dict) -> Outcome:
         import Reduino.toolchain.pio as pio
@@ -393,7 +426,31 @@ class E9Project(Engine):
             (sandbox / "neighbour.txt").write_text("untouched")
             project = sandbox / "proj"
             project.mkdir()
-            before = listing(sandbox)
+            # a project directory left over from an earlier session
+            stale = case.get("stale")
+            if stale in ("main", "both"):
+                (project / "src").mkdir()
+                (project / "src" / "main.cpp").write_text("// stale firmware\nvoid setup() {}\nvoid loop() {}\n")
+            if stale in ("ini", "both"):
+                (project / "platformio.ini").write_text("[env:old]\nplatform = atmelavr\nboard = uno\nframework = arduino\nupload_port = COM9\nlib_deps =\n  Stale\n")
+            before = {k: v for k, v in listing(sandbox).items() if not k.startswith("proj/")}
+            steps = case.get("steps") or [case]
+            last = None
+            for k, st in enumerate(steps):
+                last = self._write_and_check(pio, sandbox, project, before, st, k)
+                if last.status != "ok":
+                    return last
+            last.probes["writes"] = len(steps)
+            last.faults = {"project_dir_reused": len(steps) - 1, "stale_project": int(bool(stale)),
+                           "same_length_rewrite": sum(1 for a, b in zip(steps, steps[1:]) if a["source"] != b["source"] and len(a["source"].encode()) == len(b["source"].encode()))}
+            return last
+        finally:
+            shutil.rmtree(sandbox, ignore_errors=True)
+
+    def _write_and_check(self, pio, sandbox, project, before, case: dict, step_no: int) -> Outcome:
+        from dst.pc.sandbox import listing
+
+        if True:
             libs = case["libs"]
             arg = {"list": list(libs), "none": None, "tuple": tuple(libs), "generator": (l for l in libs)}[case["lib_mode"]]
             expect_libs: List[str] = []
@@ -409,11 +466,11 @@ class E9Project(Engine):
             for k, v in before.items():
                 if after.get(k) != v:
                     return Outcome("violation", cls="outside", message=f"{k} outside the project changed")
-            new = sorted(k for k in after if k not in before)
+            new = sorted(k for k in after if k not in before and k != "proj")
             if new != ["proj/platformio.ini", "proj/src", "proj/src/main.cpp"]:
                 return Outcome("violation", cls="files", message=f"unexpected files {new}")
             if after["proj/src/main.cpp"] != case["source"].encode("utf-8"):
-                return Outcome("violation", cls="main-cpp", message="src/main.cpp is not the UTF-8 encoding of the given source")
+                return Outcome("violation", cls="main-cpp", message=f"write {step_no}: src/main.cpp is not the UTF-8 encoding of the given source")
             ini = configparser.ConfigParser(interpolation=None)
             try:
                 ini.read_string(after["proj/platformio.ini"].decode("utf-8"))
@@ -435,8 +492,6 @@ class E9Project(Engine):
                 return Outcome("violation", cls="lib-deps", message=f"lib_deps {got_libs}, expected {expect_libs}")
             return Outcome("ok", digest=sha(after["proj/platformio.ini"] + after["proj/src/main.cpp"])[:16], nontrivial=True,
                            probes={"libs": len(expect_libs), "nonascii": int(any(ord(c) > 127 for c in case["source"]))})
-        finally:
-            shutil.rmtree(sandbox, ignore_errors=True)
 
     @staticmethod
     def _sweep(pio) -> Outcome:
@@ -477,19 +532,29 @@ class E9Project(Engine):
     def shrink_candidates(self, case: dict) -> Iterable[dict]:
         if case.get("mode") != "write":
             return
-        if case["libs"]:
-            for i in range(len(case["libs"])):
+        if "steps" not in case:
+            case = {"mode": "write", "steps": [{k: v for k, v in case.items() if k != "mode"}], "stale": None}
+        steps = case["steps"]
+        if case.get("stale"):
+            yield {**copy.deepcopy(case), "stale": None}
+        if len(steps) > 1:
+            for i in range(len(steps)):
                 c = copy.deepcopy(case)
-                del c["libs"][i]
+                del c["steps"][i]
                 yield c
-        if case["source"]:
-            c = copy.deepcopy(case)
-            c["source"] = ""
-            yield c
-        if case["port"] != "COM1":
-            c = copy.deepcopy(case)
-            c["port"] = "COM1"
-            yield c
+        for si, st in enumerate(steps):
+            for i in range(len(st["libs"])):
+                c = copy.deepcopy(case)
+                del c["steps"][si]["libs"][i]
+                yield c
+            if st["port"] != "COM1":
+                c = copy.deepcopy(case)
+                c["steps"][si]["port"] = "COM1"
+                yield c
+            if len(steps) == 1 and st["source"]:
+                c = copy.deepcopy(case)
+                c["steps"][si]["source"] = ""
+                yield c
 
 
 # ====================================================================== C10
@@ -585,6 +650,44 @@ def promotion_script(rng) -> str:
     return "\n".join(lines) + "\n"
 
 
+def overload_script(rng) -> str:
+    """Helper functions called with several argument-type signatures (one C++ overload per signature), in seeded
+    call order, from setup, from the loop and from each other: the order and the set of emitted overloads must not
+    depend on the hash seed or on earlier calls."""
+
+    lines = [
+        "from Reduino import target", 'target("COM3")', "from Reduino.Communication import SerialMonitor",
+        'mon = SerialMonitor(9600, "COM3")',
+    ]
+    names = ["scale", "mix", "show", "pick", "blend", "clip", "emit2", "fold"]
+    rng.shuffle(names)
+    values = {"int": ["3", "0", "41"], "float": ["1.5", "0.25"], "str": ['"ab"', '"z"'], "bool": ["True", "False"]}
+    helpers = []
+    for name in names[: rng.randint(1, 4)]:
+        nparams = rng.choice([1, 1, 2, 3])
+        params = [f"{rng.choice('abcdpqxyz')}{i}" for i in range(nparams)]
+        lines.append(f"def {name}({', '.join(params)}):")
+        if rng.random() < 0.5:
+            lines.append(f"    mon.write({params[0]})")
+            lines.append(f"    return {params[-1]}")
+        else:
+            lines.append(f"    return {params[0]}")
+        helpers.append((name, nparams))
+    calls = []
+    for name, nparams in helpers:
+        for _ in range(rng.randint(1, 5)):
+            kinds = [rng.choice(["int", "float", "str", "bool", "int", "float"]) for _ in range(nparams)]
+            args = ", ".join(rng.choice(values[k]) for k in kinds)
+            calls.append(rng.choice([f"mon.write({name}({args}))", f"r{len(calls)} = {name}({args})", f"{name}({args})"]))
+    rng.shuffle(calls)
+    cut = rng.randint(0, len(calls))
+    lines += calls[:cut]
+    lines.append("while True:")
+    lines += ["    " + c for c in calls[cut:]] or ["    pass"]
+    lines.append('    mon.write("t")')
+    return "\n".join(lines) + "\n"
+
+
 class E9Determinism(Engine):
     name = "e9-determinism"
     property_id = "C10"
@@ -610,10 +713,14 @@ class E9Determinism(Engine):
         scripts = []
         for _ in range(rng.randint(4, 8)):
             r = rng.random()
-            if r < 0.4:
+            if r < 0.3:
                 scripts.append(promotion_script(rng))
+            elif r < 0.42:
+                scripts.append(overload_script(rng))
             elif r < 0.6:
-                scripts.append(ProgGen(rng, avoid, GenOptions(max_stmts=rng.choice([8, 16, 24]))).generate())
+                # determinism does not depend on the firmware being right: half of the programs use every
+                # generator feature, including those tied to open findings of other properties
+                scripts.append(ProgGen(rng, avoid if rng.random() < 0.5 else [], GenOptions(max_stmts=rng.choice([8, 16, 24]))).generate())
             elif r < 0.7:
                 scripts.append(ActGen(rng, avoid, tier).generate())
             elif r < 0.88:
@@ -725,11 +832,11 @@ class E9Hostile(Engine):
         "time: deterministic budget of traced interpreter steps + RLIMIT_CPU in a worker subprocess (big-int arithmetic produces no trace events)",
     ]
     assumptions = [
-        "prompt termination = 400000 + 3000*len(text) traced lines inside Reduino code and 20 s of CPU for a batch of 10 texts",
+        "prompt termination = 400000 + 3000*len(text) traced lines inside Reduino code and 20 s of CPU for a batch of 17 texts",
         "SyntaxError is accepted only for text that ast.parse itself rejects",
     ]
     rule = (
-        "each case = 10 texts: hostile expressions (code execution, file/process/network/env access, huge arithmetic, "
+        "each case = 17 texts: hostile expressions (code execution, file/process/network/env access, huge arithmetic, "
         "deep nesting, wrong types) planted in ~60 argument positions the parser folds or re-parses; mutated valid "
         "scripts; byte noise. Judged per text: result is str or ValueError (SyntaxError only if not Python), no audit "
         "event, no canary, no env/cwd/module-state change, within the step and CPU budget; non-trivial = at least one "
@@ -737,7 +844,7 @@ class E9Hostile(Engine):
     )
 
     def generate(self, rng, tier: str, avoid) -> dict:
-        from dst.gen.hostile import hostile_texts, mutate_text, noise, rejection_texts
+        from dst.gen.hostile import growth_chain, hostile_texts, mutate_text, noise, rejection_texts, wild_script
         from dst.gen.programs import GenOptions, ProgGen
 
         canary = "/verif/.work/canary/HIT"
@@ -747,6 +854,10 @@ class E9Hostile(Engine):
             texts.append(mutate_text(rng, base))
         texts.append(noise(rng))
         texts += rejection_texts(rng, 3)
+        # legal scripts that stress the transpiler itself: constants that double on every line, and scripts of the
+        # supported subset with undefined run-time behaviour (an internal error must still not escape)
+        texts.append(growth_chain(rng))
+        texts += [wild_script(rng) for _ in range(3)]
         skip = set(avoid)
         if "hostile_bigint" in skip:
             texts = [t for t in texts if not re.search(r"\*\*\s*\d+\s*\*\*|<<\s*10\s*\*\*|\*\*\s*7777|\* 10\*\*10|10\*\*8", t)] or ["x = 1\n"]
@@ -765,7 +876,7 @@ class E9Hostile(Engine):
         texts = [t.replace("/verif/.work/canary/HIT", os.path.join(canary_dir, f"hit{os.getpid()}")) for t in case["texts"]]
         env = dict(os.environ, PYTHONPATH=str(VERIF), VERIF_REPO=str(REPO), PYTHONHASHSEED="0")
         env.pop("REDUINO_VERIF", None)
-        job = {"texts": texts, "canary_dir": os.path.join(canary_dir, f"d{os.getpid()}"), "cpu_s": 20}
+        job = {"texts": texts, "canary_dir": os.path.join(canary_dir, f"d{os.getpid()}"), "cpu_s": 20 if len(texts) > 1 else 8}
         texts = [t.replace(os.path.join(canary_dir, f"hit{os.getpid()}"), os.path.join(job["canary_dir"], "hit")) for t in texts]
         job["texts"] = texts
         proc = subprocess.run(
